@@ -683,6 +683,7 @@ func checkValidatorUniqueness(r *Report, rule string) {
 	norm := P.labelNormalizer()
 	eps, _ := P.validatorEntryPaths(val)
 	why := ""
+	helperFills := false
 	for _, ep := range eps {
 		if !ep.accepted {
 			continue
@@ -692,8 +693,11 @@ func checkValidatorUniqueness(r *Report, rule string) {
 			if c.Val && c.Pred.Op == "res" && c.Pred.S == "1" && c.Pred.Args[0].Op == "call" && c.Pred.Args[0].S == shortFn(norm) {
 				okNorm = true
 			}
-			if !c.Val && c.Pred.Op == "res" && c.Pred.S == "1" && c.Pred.Args[0].Op == "lookup" && c.Pred.Args[0].S == "ok" && strings.Contains(c.Pred.Args[0].Args[1].String(), "call<"+shortFn(norm)+">") {
-				okDup = true
+		}
+		if t, ins := P.dupTested(ep.conds, norm); t {
+			okDup = true
+			if ins {
+				helperFills = true
 			}
 		}
 		if !okNorm {
@@ -704,7 +708,7 @@ func checkValidatorUniqueness(r *Report, rule string) {
 	}
 	r.ob(rule, shortFn(val)+":unique", val, nil, "every accepted entry normalised its label and passed the duplicate test").check(why == "", "normalise ok and !seen(label) on every accepting path", why)
 	// the set is filled with the normalised label
-	filled := false
+	filled := helperFills
 	for _, b := range val.Blocks {
 		for _, in := range b.Instrs {
 			if mu, ok := in.(*ssa.MapUpdate); ok && strings.Contains(P.terms.of(mu.Key).String(), "call<"+shortFn(norm)+">") && P.terms.of(mu.Map).Op == "makemap" {
@@ -713,6 +717,63 @@ func checkValidatorUniqueness(r *Report, rule string) {
 		}
 	}
 	r.ob(rule, shortFn(val)+":records", val, nil, "the normalised label is recorded in the seen-set").check(filled, "seen[normalised label] = ...", "no insertion of the normalised label into a local set")
+}
+
+// dupTested: the conditions contain a passed duplicate test of a label
+// produced by the normaliser against a local set: the inline form `_, seen :=
+// set[L]; !seen`, or the true result of a test-and-insert helper (which then
+// also records the label: second result).
+func (P *Prog) dupTested(conds []Fact, norm *ssa.Function) (tested, inserted bool) {
+	isNorm := func(t *Term) bool { return strings.Contains(t.String(), "call<"+shortFn(norm)+">") }
+	for _, c := range conds {
+		if !c.Val && c.Pred.Op == "res" && c.Pred.S == "1" && c.Pred.Args[0].Op == "lookup" && c.Pred.Args[0].S == "ok" && isNorm(c.Pred.Args[0].Args[1]) && c.Pred.Args[0].Args[0].Op == "makemap" {
+			tested = true
+		}
+		if c.Val && c.Pred.Op == "call" && len(c.Pred.Args) == 2 && c.Pred.Args[0].Op == "makemap" && isNorm(c.Pred.Args[1]) {
+			if h := P.calleeOfTerm(c.Pred); h != nil && P.isTestAndInsert(h) {
+				tested, inserted = true, true
+			}
+		}
+	}
+	return
+}
+
+// isTestAndInsert: h(set, key) bool returns true only when key was absent
+// from set and has been inserted on that path.
+func (P *Prog) isTestAndInsert(h *ssa.Function) bool {
+	if len(h.Params) != 2 || h.Signature.Results().Len() != 1 || boolResultIndex(h) != 0 {
+		return false
+	}
+	nTrue := 0
+	for _, p := range P.allPaths(h) {
+		if !p.feasible() {
+			continue
+		}
+		rt := p.results()[0]
+		if rt.Op == "const" && rt.S == "false" {
+			continue
+		}
+		if !(rt.Op == "const" && rt.S == "true") {
+			return false
+		}
+		nTrue++
+		absent := false
+		for _, c := range p.conds {
+			if !c.Val && c.Pred.Op == "res" && c.Pred.S == "1" && c.Pred.Args[0].Op == "lookup" && c.Pred.Args[0].Args[0].String() == "$0" && c.Pred.Args[0].Args[1].String() == "$1" {
+				absent = true
+			}
+		}
+		put := false
+		p.instrs(func(in ssa.Instruction) {
+			if mu, ok := in.(*ssa.MapUpdate); ok && p.eng.of(mu.Map).String() == "$0" && p.eng.of(mu.Key).String() == "$1" {
+				put = true
+			}
+		})
+		if !absent || !put {
+			return false
+		}
+	}
+	return nTrue > 0
 }
 
 func mutC13() []mutant {
